@@ -29,7 +29,7 @@ def llvm_disasm_many(byte_strings):
     res = []
     # llvm-mc reads all bytes as one stream; run one process per chunk of samples but separate samples by
     # a recognisable marker that no sample ends with.
-    marker = ' '.join(['0xcc'] * 16)
+    marker = ' '.join(['0x0f', '0x0b'] * 8)
     CH = 200
     for k in range(0, len(byte_strings), CH):
         chunk = byte_strings[k:k + CH]
@@ -49,15 +49,15 @@ def llvm_disasm_many(byte_strings):
         run = 0
         out = []
         for l in lines:
-            if l == 'int3':
+            if l == 'ud2':
                 run += 1
-                if run == 16:
-                    out.append(cur[:len(cur) - 15] if False else [x for x in cur])
+                if run == 8:
+                    out.append(cur)
                     cur = []
                     run = 0
                 continue
             if run:
-                cur += ['int3'] * run
+                cur += ['ud2'] * run
                 run = 0
             cur.append(l)
         if len(out) != len(chunk):
@@ -88,7 +88,25 @@ def mask_imm(text, osz):
     return re.sub(r'\$(-?\d+)', f, text)
 
 
-SHIFT1 = re.compile(r'^((?:rol|ror|rcl|rcr|shl|shr|sar)[bwlq]) ([^$,]+)$')
+SHIFT1 = re.compile(r'^((?:lock |rep |repne )*(?:rol|ror|rcl|rcr|shl|shr|sar)[bwlq]) ([^$]+)$')
+
+
+def split_operands(t):
+    """split an AT&T operand list on the commas outside parentheses"""
+    out, depth, cur = [], 0, ''
+    for ch in t:
+        if ch == '(':
+            depth += 1
+        elif ch == ')':
+            depth -= 1
+        if ch == ',' and depth == 0:
+            out.append(cur.strip())
+            cur = ''
+        else:
+            cur += ch
+    if cur.strip():
+        out.append(cur.strip())
+    return out
 
 
 def norm(text, osz):
@@ -97,8 +115,11 @@ def norm(text, osz):
     t = mask_imm(t, osz)
     # llvm prints the shift-by-one encodings (D0/D1) without a count: normal form has $1
     m = SHIFT1.match(t)
-    if m:
+    if m and len(split_operands(m.group(2))) == 1:
         t = '%s $0x1, %s' % (m.group(1), m.group(2))
+    # an SIB byte that encodes "no index" with a scale: llvm shows the pseudo register %riz
+    t = re.sub(r'\(,\s*%riz(,\d)?\)', '', t)
+    t = re.sub(r',\s*%riz(,\d)?', '', t)
     # scale 1 is implicit
     t = re.sub(r',1\)', ')', t)
     # displacement / branch offsets: decimal, llvm may print them in hex for large values
